@@ -42,12 +42,25 @@ def strip_events(line):
     return " ".join(out)
 
 _first_diff = verif.first_diff
-verif.first_diff = lambda a, b: _first_diff([strip_events(x) for x in a], [strip_events(x) for x in b])
+def _diff_events_aware(a, b):
+    """the Lean driver prints the service decoder's events for `p` ops, until a packet type its service
+    model does not cover was delivered; from then on it prints ` ev?` and events are not compared"""
+    aa, bb = [], []
+    for i in range(max(len(a), len(b))):
+        x = a[i] if i < len(a) else None
+        y = b[i] if i < len(b) else None
+        if x is not None and y is not None and (" ev?" in x or " ev?" in y):
+            x, y = strip_events(x.replace(" ev?", "")), strip_events(y.replace(" ev?", ""))
+        if x is not None: aa.append(x)
+        if y is not None: bb.append(y)
+    return _first_diff(aa, bb)
+verif.first_diff = _diff_events_aware
 
 SIG_A = "sep-parity-keeps-curr-sp"
 SIG_B = "demux-unsupported-header-discards-current"
 SIG_C = "demux-0x1n-0x4n-share-buffer"
 SIG_BC = "demux-unsupported-header-and-shared-buffer"
+SIG_T = "prog-type-never-announced"
 
 
 def parse_case(case):
@@ -100,14 +113,17 @@ class ServiceMirror:
     content; VBI_EVENT_PROG_INFO on the second occurrence of a packet type with unchanged data;
     when a changed name is repeated VBI_EVENT_NETWORK_ID, and - only if the station id derived from
     call letters / name differs from the current one - a decoder reset and VBI_EVENT_NETWORK."""
-    def __init__(self):
+    def __init__(self, type_shadow=False):
+        self.type_shadow = type_shadow     # known deviation: a programme-type packet never announces
+        self.type_ids = [[], []]           # type_id[] survives vbi_reset_prog_info
         self.pi = [self.fresh(0), self.fresh(1)]
         self.cycle = [0, 0]
         self.net = {"name": [], "call": [], "cycle": 0, "nuid": 0, "td": 0}
 
     @staticmethod
     def fresh(f):
-        return {"f": f, "pin": (-1, -1, -1, -1), "td": 0, "len": (-1, -1), "el": (-1, -1, -1), "title": [], "cgms": -1}
+        return {"f": f, "pin": (-1, -1, -1, -1), "td": 0, "len": (-1, -1), "el": (-1, -1, -1), "title": [], "cgms": -1,
+                "type": None}
 
     def flush(self, c):
         self.pi[c] = self.fresh(c)
@@ -152,6 +168,12 @@ class ServiceMirror:
                         self.flush(cls); pi = self.pi[cls]
                         pi["title"] = t
                         self.cycle[cls] |= 8
+            elif typ == 4:
+                neq = pi["type"] is None or self.type_ids[cls] != list(data)
+                self.type_ids[cls] = list(data)
+                pi["type"] = list(data)
+                if self.type_shadow:
+                    return ev
             elif typ == 8:
                 if n != 1: return ev
                 neq = (data[0] & 63) != pi["cgms"]
@@ -195,7 +217,14 @@ class ServiceMirror:
 def service_oracle(case, out):
     """programme / network information equals the decoding of the delivered packets and is announced
     after the documented repeat (`p` ops)"""
-    m = ServiceMirror()
+    w = _service_oracle(case, out, False)
+    if w and w.startswith("prog-info-mismatch") and _service_oracle(case, out, True) is None:
+        return SIG_T + ": caption.c xds_decoder never announces a programme type packet (local `int neq` hides the outer one)"
+    return w
+
+
+def _service_oracle(case, out, type_shadow):
+    m = ServiceMirror(type_shadow)
     for i, l in enumerate(case):
         if not (l.startswith("p ") or l.startswith("s ")):
             continue
@@ -220,7 +249,9 @@ def service_oracle(case, out):
                                    "len": tuple(int(x) for x in kv["len"].split(":")),
                                    "el": tuple(int(x) for x in kv["el"].split(":")),
                                    "title": list(bytes.fromhex(kv["title"])) if kv["title"] != "-" else [],
-                                   "cgms": int(kv["cgms"])}))
+                                   "cgms": int(kv["cgms"]),
+                                   "type": None if kv["type"] == "none" else
+                                           (list(bytes.fromhex(kv["type"])) if kv["type"] != "-" else [])}))
             elif e[0] == "ev:net":
                 got.append(("net", list(bytes.fromhex(kv["name"])) if kv["name"] != "-" else [],
                             list(bytes.fromhex(kv["call"])) if kv["call"] != "-" else [], int(kv["td"])))
@@ -240,9 +271,9 @@ class C09(verif.Spec):
     harness = "xds_harness"
     harness_link_lib = True
     timeout_per_case = 2.0
-    partial_note = ("prog_info_equals_packets (xds_decoder content decoding, caption.c 147-581) is covered by the "
-                    "service-decoder oracle only, not by a theorem; interleaving independence for caption.c is proved "
-                    "for foreign blocks made of readable pairs (see NOTES/C09.md)")
+    partial_note = ("service decoder: theorems for programme name, network name, call letters; the other programme-info "
+                    "types (id, length, type, rating, CGMS-A, description) are modelled and tied by correspondence and the "
+                    "service oracle only; audio / caption services / aspect ratio (types 6, 7, 9) are not modelled")
     assumptions = ["little-endian int layout for the buffer[-1]/buffer[-2] overlay of caption.c (only on the path the "
                    "model reports as out of bounds)",
                    "the caption decoder proper does not touch cc->xds / curr_sp / sub_packet (checked by grep and by "
@@ -251,10 +282,7 @@ class C09(verif.Spec):
                     "`extents` op, flags by the corpus replays)",
                     "harness/xds_harness.c incl. the macro that redirects the xds_decoder call to a printing hook",
                     "lib/xds_util.py reference receiver = my reading of EIA-608 XDS packet framing"]
-    open_statements = ["Zvbi.Props.C09.sep_interleaving_independent_statement (caption.c interleaving independence; def, not proved)",
-                       "Zvbi.Props.C09.sep_parity_error_not_delivered_statement (caption.c, repaired control flow; def, not proved)",
-                       "prog_info_equals_packets (xds_decoder content decoding; service-decoder oracle only)",
-                       "an oversize packet (33..40 characters) delivers nothing at all (only 'no delivery longer than 32' is proved; rest by oracle)"]
+    open_statements = ["prog_info_equals_packets beyond the modelled packet types (see NOTES/C09.md)"]
 
     # ------------------------------------------------------------------ generation
     def gen_cases(self, rng, tier):
@@ -429,12 +457,16 @@ class C09(verif.Spec):
             if not conf or got == exp:
                 continue
             if mode == "d":
-                if got == X.reference(pairs, "d", reject_kills=True)[0]:
-                    return SIG_B + ": vbi_xds_demux_feed loses the packet that a header of an unsupported class/type interrupts"
+                # known deviations, as variants of the reference.  The shared 0x1n/0x4n buffer is tried first;
+                # "a refused header discards the current packet" only while the source still does that
+                # (generated flag demuxRejectKeepsCurrent = false), otherwise it would be a regression
                 if got == X.reference(pairs, "d", alias=True)[0]:
                     return SIG_C + ": vbi_xds_demux_feed keeps subclasses 0x1n and 0x4n in one buffer"
-                if got == X.reference(pairs, "d", alias=True, reject_kills=True)[0]:
-                    return SIG_BC + ": both known deviations of vbi_xds_demux_feed in one stream"
+                if self.flags().get("demuxRejectKeepsCurrent") != "true":
+                    if got == X.reference(pairs, "d", reject_kills=True)[0]:
+                        return SIG_B + ": vbi_xds_demux_feed loses the packet that a header of an unsupported class/type interrupts"
+                    if got == X.reference(pairs, "d", alias=True, reject_kills=True)[0]:
+                        return SIG_BC + ": both known deviations of vbi_xds_demux_feed in one stream"
             k = 0
             while k < min(len(exp), len(got)) and exp[k] == got[k]:
                 k += 1
@@ -456,6 +488,10 @@ class C09(verif.Spec):
                      0x40 | rng.randrange(1, 13) | rng.choice([0, 0x10])] for _ in range(2)]
             pins.append([0x40 | 61, 0x40 | 25, 0x40, 0x40 | 13])       # invalid on purpose
             lens = [[0x40 | rng.randrange(64) for _ in range(rng.choice([2, 3, 4, 5, 6]))] for _ in range(2)]
+            types = [[rng.randrange(0x20, 0x80) for _ in range(rng.randrange(1, 33))] for _ in range(2)]
+            types.append(types[0][:max(1, len(types[0]) // 2)])
+            wide = rng.random() < 0.4
+            typed = rng.random() < 0.15          # programme-type packets (known finding on the current tree)
             st = []
             for _ in range(rng.randrange(3, 14)):
                 cls = rng.choice([0, 0, 0, 1])
@@ -463,10 +499,19 @@ class C09(verif.Spec):
                 if r < 0.25: p = X.Packet(cls, 3, rng.choice(titles))
                 elif r < 0.40: p = X.Packet(cls, 1, rng.choice(pins))
                 elif r < 0.55: p = X.Packet(cls, 2, rng.choice(lens))
-                elif r < 0.65: p = X.Packet(cls, 8, [0x40 | rng.randrange(4)])
+                elif r < 0.62: p = X.Packet(cls, 8, [0x40 | rng.randrange(4)])
+                elif r < 0.65 and typed: p = X.Packet(cls, 4, rng.choice(types))
                 elif r < 0.85: p = X.Packet(2, 1, rng.choice(names))
                 elif r < 0.93: p = X.Packet(2, 2, rng.choice(names)[:4])
                 else: p = X.Packet(2, 3, [0x40 | rng.randrange(60), 0x40 | rng.randrange(24)])
+                if wide and rng.random() < 0.35:
+                    # types only the Lean service model covers (the Python mirror stops judging there),
+                    # and now and then one neither covers (6, 7, 9: the model prints ` ev?` from then on)
+                    r = rng.random()
+                    if r < 0.3: p = X.Packet(cls, 5, [0x40 | rng.randrange(64), 0x40 | rng.randrange(64)])
+                    elif r < 0.55: p = X.Packet(cls, 4, rng.choice(types))
+                    elif r < 0.9: p = X.Packet(cls, 0x10 + rng.randrange(8), rng.choice(titles))
+                    else: p = X.Packet(cls, rng.choice([6, 7, 9]), [0x40 | rng.randrange(64), 0x40 | rng.randrange(64)])
                 if rng.random() < 0.07:
                     p.ck = (p.ck + 1) % 128
                 for _ in range(rng.choice([1, 2, 2, 3])):
